@@ -21,7 +21,6 @@ Record case := mkCase {
   c_steps : list step_obs
 }.
 
-Definition nl_eqb := list_eqb Nat.eqb.
 Definition pl_eqb (p q : payload) : bool :=
   list_eqb (fun x y => Nat.eqb (fst x) (fst y) && Z.eqb (snd x) (snd y)) p q.
 Definition obj_eqb (multi : bool) (x y : obj) : bool :=
@@ -56,7 +55,11 @@ Fixpoint check_steps (tags : list nat) (cur other : obj) (ops : list op) (steps 
       flag (negb (prom && (Nat.eqb (s_kind s) 4
                            || (Nat.eqb (s_kind s) 1 && negb (Nat.eqb (o_cls (s_res s)) (o_cls cur)))))) 2
       ++ flag (negb (Nat.eqb (s_kind s) 1 && Nat.eqb (o_cls (s_res s)) (o_cls cur)
-                     && negb (nl_eqb (o_attrs (s_res s)) (o_attrs cur)))) 3
+                     && negb (nl_eqb (o_attrs (s_res s))
+                                     (match o with
+                                      | OCtorVal b => firstn 1 (o_attrs cur) ++ (if b then 0 else 1) :: skipn 2 (o_attrs cur)
+                                      | _ => o_attrs cur
+                                      end)))) 3
       ++ flag (negb (match o with OAsMulti => Nat.eqb (s_kind s) 1 | _ => false end
                      && negb (nl_eqb (firstn 2 (o_attrs (s_res s)) ++ skipn 3 (o_attrs (s_res s)))
                                      (firstn 2 (o_attrs cur) ++ skipn 3 (o_attrs cur))))) 3
